@@ -15,7 +15,7 @@ import (
 func init() {
 	register(&Property{
 		ID:          "C11",
-		Explanation: "R1 (never outside the pool): for each implementation of stickycookie.CookieValue, every non-nil *url.URL returned by FindURL is an element of its urls argument (the value of a range over it) or the result of a nested FindURL on the same slice — never the URL parsed from the cookie. R2 (codec agreement): two-way codecs decode and compare exactly {Scheme,Host,Path} (shared with C02.R4); for the one-way hash codec the value fed to the hash when minting (Get) and when looking up (FindURL) is the same function applied to the URL. R3 (degrade, never reject): in both balancers' ServeHTTP no return and no error response lies between the cookie lookup and the normal selection; the request is pinned only on the 'present' edge (with a copy of the member's URL); the selection routine is not called on the pinned path; on the unpinned path with sticky sessions configured StickBackend is called with the URL the selection returned, before the request is handed downstream. R4: GetBackend maps http.ErrNoCookie to (nil,false,nil) and reports present = (url != nil); the AES codec returns an error and no URL on the authentication-failure and expiry edges and slices the decoded bytes only on an edge proving the decoded length exceeds the nonce size; the fallback codec consults 'to' with the same arguments whenever 'from' found nothing. R3 also: the candidate list handed to the cookie lookup and the normal selection come from the same pool (same receiver field, or the same wrapped object); selection-after-pin is decided by the relational flag fixpoint. R1 follows helpers (membership of the returned URL in the slice parameter). R2 also: Raw and AES Get encode raw.String() and read no URL field. R3 also: RoundRobin.Servers lists every record (full loop, no skip); the cookie value issued by StickBackend is, on every path, the result of cookieValue.Get(backend) made in that call.",
+		Explanation: "R1 (never outside the pool): for each implementation of stickycookie.CookieValue, every non-nil *url.URL returned by FindURL is an element of its urls argument (the value of a range over it) or the result of a nested FindURL on the same slice — never the URL parsed from the cookie. R2 (codec agreement): two-way codecs decode and compare exactly {Scheme,Host,Path} (shared with C02.R4); for the one-way hash codec the value fed to the hash when minting (Get) and when looking up (FindURL) is the same function applied to the URL. R3 (degrade, never reject): in both balancers' ServeHTTP no return and no error response lies between the cookie lookup and the normal selection; the request is pinned only on the 'present' edge (with a copy of the member's URL); the selection routine is not called on the pinned path; on the unpinned path with sticky sessions configured StickBackend is called with the URL the selection returned, before the request is handed downstream. R4: GetBackend maps http.ErrNoCookie to (nil,false,nil) and reports present = (url != nil); the AES codec returns an error and no URL on the authentication-failure and expiry edges and slices the decoded bytes only on an edge proving the decoded length exceeds the nonce size; the fallback codec consults 'to' with the same arguments whenever 'from' found nothing. R3 also: the candidate list handed to the cookie lookup and the normal selection come from the same pool (same receiver field, or the same wrapped object); selection-after-pin is decided by the relational flag fixpoint. R1 follows helpers (membership of the returned URL in the slice parameter). R2 also: Raw and AES Get encode raw.String() and read no URL field. R3 also: RoundRobin.Servers lists every record (full loop, no skip); the cookie value issued by StickBackend is, on every path, the result of cookieValue.Get(backend) made in that call. R3 also: the affinity cookie is added with http.SetCookie / Header.Add, never set over existing Set-Cookie values. R5 (= C06.R6), R6 (= C02.R4).",
 		NotDecided: []string{
 			"cryptographic unforgeability (AES-GCM, trusted); exact round trip of url.Parse(u.String()) for exotic URLs",
 			"remark (no rule): with a TTL the AES codec frames url|expiry and splits at '|', so a server URL containing a literal '|' loses stickiness (degrades, never mis-routes)",
@@ -730,6 +730,7 @@ func mutantsC11() []Mutant {
 		{Name: "rb-servers-from-own-records", File: "roundrobin/rebalancer.go", Old: "\treturn rb.next.Servers()\n", New: "\tout := make([]*url.URL, len(rb.servers))\n\tfor i, srv := range rb.servers {\n\t\tout[i] = srv.url\n\t}\n\treturn out\n", Expect: "C11.R3"},
 		{Name: "servers-skips-drained", File: "roundrobin/rr.go", Old: "\tout := make([]*url.URL, len(r.servers))\n\tfor i, srv := range r.servers {\n\t\tout[i] = srv.url\n\t}\n\treturn out\n", New: "\tout := make([]*url.URL, 0, len(r.servers))\n\tfor _, srv := range r.servers {\n\t\tif srv.weight == 0 {\n\t\t\tcontinue\n\t\t}\n\t\tout = append(out, srv.url)\n\t}\n\treturn out\n", Expect: "C11.R3"},
 		{Name: "raw-get-hand-built", File: "roundrobin/stickycookie/raw_value.go", Old: "\treturn raw.String()\n", New: "\treturn raw.Scheme + \"://\" + raw.Host + raw.Path\n", Expect: "C11.R2"},
+		{Name: "cookie-set-not-added", File: "roundrobin/stickysessions.go", Old: "\thttp.SetCookie(w, cookie)\n", New: "\tw.Header().Set(\"Set-Cookie\", cookie.String())\n", Expect: "C11.R3"},
 	}
 }
 
